@@ -158,7 +158,7 @@ func (e *AExpr) model() modelOut {
 }
 
 func evalArray1(src string, data map[string]interface{}) (interface{}, error, bool, interface{}) {
-	sc, err := formula.ParseSourceCode([]byte(src))
+	sc, err := hostParse([]byte(src), true)
 	if err != nil {
 		return nil, fmt.Errorf("parse: %w", err), false, nil
 	}
